@@ -26,10 +26,12 @@ RULE = ("scripts on the virtual clock (tick 0.25 s): 1..3 arrivals on the slots 
         "that arrivals coincide with completions, fall into the guard time and onto its end; stop_timeout never "
         "expires in this part. Expiry part: the same arrivals (placed B), stop placed B/T/A (<=2 arrivals) or A (3), "
         "stop_timeout 2/3/5 ticks (3 only for 3 arrivals), so that the deadline falls before / exactly onto / after "
-        "the end of the pending work, onto coroutine ends, into and onto the end of guard sleeps. thorough "
+        "the end of the pending work, onto coroutine ends, into and onto the end of guard sleeps. Abort part: "
+        "on_error=(probe, Event.abort()) with exactly one failing run among <=2 arrivals: the failing run itself "
+        "stops the simulation (stop() is recorded where it really happens), stop_timeout big or 3. thorough "
         "enumerates both parts completely and adds random scripts with 4 arrivals on 10 slots, durations 1..4, mixed "
-        "placements, any number of failing runs, guard 1..3 and (40 %) a stop_timeout of 1..12 ticks; quick takes "
-        "a random 3 % sample of both parts plus 3000 random scripts. Compared with the Lean model: the complete time-stamped log of output changes, "
+        "placements, any number of failing runs, guard 1..3 and (40 %) a stop_timeout of 1..12 ticks, (15 %) on_error=Event.abort(); quick "
+        "takes a random 3 % sample of the first two parts, 20 % of the abort part, plus 3000 random scripts. Compared with the Lean model: the complete time-stamped log of output changes, "
         "coroutine start/end/cancellation and success/error/cancel events in the implementation's order (start "
         "mode: per instant as a set plus the output at the end of the instant, because equal timers fire in heap "
         "order), and the instant at which stop_async finished. distinct = hash of (lines, trace); non-trivial = at "
@@ -98,6 +100,24 @@ def grid_timeouts():
                                                    'stop': [stop, sp], 'stop_timeout': to}
 
 
+def grid_abort():
+    """on_error=Event.abort(): the failing run itself stops the simulation (see RULE)"""
+    for k in (1, 2):
+        for slots in itertools.combinations_with_replacement(SLOTS, k):
+            for durs in itertools.product(DURS, repeat=k):
+                for failing in range(k):
+                    puts = [[slots[i], 'B', durs[i], i == failing] for i in range(k)]
+                    for to in (None, TIMEOUTS[1]):
+                        for mode in MODES:
+                            for guard in (0, GUARD):
+                                for sd in (False, True):
+                                    scn = {'mode': mode, 'guard': guard, 'stop_data': sd, 'puts': puts,
+                                           'stop': [12, 'A'], 'abort': True}
+                                    if to:
+                                        scn['stop_timeout'] = to
+                                    yield scn
+
+
 def random_scn(rng):
     k = 4 if rng.random() < 0.8 else rng.randint(1, 6)
     puts = sorted(([rng.randrange(10), rng.choice(PLACES), rng.randint(1, 4), rng.random() < 0.2]
@@ -106,6 +126,8 @@ def random_scn(rng):
            'puts': puts, 'stop': [rng.choice([1, 2, 3, 5, 8, 11, 14]), rng.choice(PLACES)]}
     if rng.random() < 0.4:
         scn['stop_timeout'] = rng.randint(max(1, scn['guard']), 12)
+    if rng.random() < 0.15:
+        scn['abort'] = True
     return scn
 
 
@@ -136,10 +158,14 @@ def scenarios(rng, tier):
         for scn in grid_timeouts():
             if rng.random() < 0.03:
                 yield scn
+        for scn in grid_abort():
+            if rng.random() < 0.2:
+                yield scn
         nrandom = 3000
     else:
         yield from grid()
         yield from grid_timeouts()
+        yield from grid_abort()
         nrandom = 40000
     for _ in range(nrandom):
         yield random_scn(rng)
@@ -155,6 +181,8 @@ def shrink(scn):
         yield {**scn, 'guard': 0}
     if 'stop_timeout' in scn:
         yield {k: v for k, v in scn.items() if k != 'stop_timeout'}
+    if scn.get('abort'):
+        yield {k: v for k, v in scn.items() if k != 'abort'}
     for i, p in enumerate(puts):
         if p[3]:
             yield {**scn, 'puts': puts[:i] + [[p[0], p[1], p[2], False]] + puts[i + 1:]}
@@ -240,7 +268,9 @@ class _Run:
         oa = edzed.OutputAsync(
             'oa', coro=self.work, mode=scn['mode'], f_args=['id', 'dur'], f_kwargs=['fail'],
             guard_time=(scn['guard'] * TICK / 1e6 if scn['guard'] else None),
-            on_success=edzed.Event(p, 'succ'), on_cancel=edzed.Event(p, 'canc'), on_error=edzed.Event(p, 'err'),
+            on_success=edzed.Event(p, 'succ'), on_cancel=edzed.Event(p, 'canc'),
+            # 'abort': the customary on_error=Event.abort() -- a failing run shuts the simulation down
+            on_error=((edzed.Event(p, 'err'), edzed.Event.abort()) if scn.get('abort') else edzed.Event(p, 'err')),
             stop_data=sd, stop_timeout=scn.get('stop_timeout', BIG_TIMEOUT) * TICK / 1e6,
             on_output=edzed.Event(p, 'out'))
         self.oa = oa
@@ -360,7 +390,8 @@ def run_impl(scn):
     lines.append('oasync log')
     trace.append(fmt_log(run.log, mode))
     accepted = [st for st in run.stim if st[0] == 'put' and st[7]]
-    tags = [f'mode={mode}', f"guard={'y' if scn['guard'] else 'n'}", f"stop_data={int(scn['stop_data'])}",
+    tags = ['on_error=abort'] if scn.get('abort') else []
+    tags += [f'mode={mode}', f"guard={'y' if scn['guard'] else 'n'}", f"stop_data={int(scn['stop_data'])}",
             f'nputs={len(accepted)}']
     kinds = {k for _, k, _ in run.log}
     tags += [f'seen={k}' for k in sorted(kinds & {'cancelled', 'canc', 'err'})]
@@ -411,7 +442,14 @@ def oracle(scn, res):
     if res['init_error'] != 'None':
         bad('simulation_runs', f"start-up failed: {res['init_error']}")
         return out
-    if res['final_error'] != 'None':
+    # on_error=Event.abort(): a run failing before the shutdown was requested must end the simulation with
+    # that error; a failure in the instant of the request may come first or second
+    t_req = scn['stop'][0] * TICK
+    err_times = [t for t, k, _, _ in res['results'] if k == 'err'] if scn.get('abort') else []
+    if any(t < t_req for t in err_times):
+        if 'RuntimeError' not in res['final_error']:
+            bad('abort_on_error', f"on_error=Event.abort(): a run failed but the simulation ended with {res['final_error']}")
+    elif res['final_error'] != 'None' and not (any(t == t_req for t in err_times) and 'RuntimeError' in res['final_error']):
         bad('simulation_runs', f"the simulation ended with {res['final_error']} instead of a normal shutdown")
     arrivals = [(st[1], st[4], st[5], st[6]) for st in stim if st[0] == 'put' and st[7]]   # (t, id, dur, fail) in arrival order
     stops = [st for st in stim if st[0] == 'stop']
